@@ -7,6 +7,7 @@ from tprules import facts, gen
 d, info = gen.facts_dir('default')
 fx = facts.load(d)
 ids = sorted(k for k, r in fx.fns.items() if r.get('kind') != 'Closure')
+sigs = {k: fx.fns[k]['locals'][:fx.fns[k]['argc'] + 1] for k in ids}
 with open(os.path.join(gen.VERIF, 'baseline_fns.json'), 'w') as f:
-    json.dump({'tree_hash': info['tree_hash'], 'repo_head': os.popen('git -C /repo rev-parse --short HEAD').read().strip(), 'functions': ids}, f)
+    json.dump({'tree_hash': info['tree_hash'], 'repo_head': os.popen('git -C /repo rev-parse --short HEAD').read().strip(), 'functions': ids, 'signatures': sigs}, f)
 print(len(ids), 'functions')
